@@ -15,6 +15,9 @@ type Conn = net.Conn
 type Dialer struct {
 	Timeout   time.Duration
 	KeepAlive time.Duration
+	DualStack bool
+	Deadline  time.Time
+	LocalAddr net.Addr
 }
 
 func (d *Dialer) DialContext(ctx context.Context, network, addr string) (net.Conn, error) {
